@@ -19,7 +19,16 @@ fn write_with<T: WriteToHeader + ?Sized>(x: &T, prefill: &[u8]) -> (W, W, W, Res
         let mut w = Writer::from(prefill.to_vec());
         match f(&mut w) {
             Ok(n) => Ok((n, w.finish())),
-            Err(e) => Err((format!("{:?}", e.kind()), w.finish())),
+            Err(e) => {
+                // a refusal writes nothing and leaves the writer usable: one more byte goes in
+                // (the marker 0x5A is expected after the prefill by the judge)
+                let follow = 0x5Au8.write_to(&mut w);
+                let mut out = w.finish();
+                if follow.is_err() {
+                    out.extend_from_slice(b"<the writer refused a one-byte value after the refusal>");
+                }
+                Err((format!("{:?}", e.kind()), out))
+            }
         }
     };
     let a = one(&|w| x.write_to(w));
@@ -121,8 +130,9 @@ fn judge(v: &Val, pre: &Blob, rec: &mut Recorder) {
                 match w {
                     Ok((n, out)) => viol(rec, "oversized-accepted", format!("write_to on {} accepted a value too large for a 16-bit length (returned {}, writer now {} bytes)", how, n, out.len())),
                     Err((_, out)) => {
-                        if *out != prefill {
-                            viol(rec, "refused-but-wrote", format!("write_to on {} refused the value but the writer went from {} to {} bytes", how, prefill.len(), out.len()));
+                        // prefill, then the one-byte marker written after the refusal
+                        if out.len() != prefill.len() + 1 || out[..prefill.len()] != prefill[..] || out[prefill.len()] != 0x5A {
+                            viol(rec, "refused-but-wrote", format!("write_to on {} refused the value; afterwards the writer must hold its {} earlier bytes and accept a one-byte value, it holds {} bytes ending in {:?}", how, prefill.len(), out.len(), String::from_utf8_lossy(&out[out.len().saturating_sub(56)..])));
                         }
                     }
                 }
